@@ -389,32 +389,58 @@ def eval_case(case, built=None):
         return eval_rename_case(case)
     if built is None:
         built = R.Built(case["names"], case["scheme"], case["seed"])
-    return eval_ref(built, case["host"], case["rc"], case["target"], case["spec"])[1]
+    res = eval_ref(built, case["host"], case["rc"], case["target"], case["spec"])[1]
+    if res or "sweep" not in case:
+        return res
+    # not reproducible on a fresh document by itself: re-execute the enumeration of that document
+    # up to the case (the failure then depends on what was rendered before it)
+    sw = case["sweep"]
+    built = R.Built(case["names"], case["scheme"], case["seed"])
+    order = _sweep_order(sw["hosts"], sw["rcs"], sw["targets"], _refs_of(sw["refset"], case["scheme"]))
+    for n, (host, rc, target, spec) in enumerate(order, start=1):
+        text, fails = eval_ref(built, host, rc, target, spec)
+        if n == case["index"]:
+            return [(i, d + f" | only after the {n - 1} preceding references of the enumeration were read on the same document") for i, d in fails]
+    return []
 
 
 # --------------------------------------------------------------------------------------------
 # workers
 # --------------------------------------------------------------------------------------------
+def _refs_of(refset, scheme):
+    body = R.body_of(scheme)
+    if refset[0] == "full":
+        return R.refs_full(tuple(refset[1]), tuple(refset[2]))
+    if refset[0] == "qual-small":
+        return R.refs_qualification_small(body)
+    return R.refs_qualification(body)
+
+
+def _sweep_order(hosts, rcs, targets, refs):
+    for host in hosts:
+        for rc in rcs:
+            for target in targets:
+                for spec in refs:
+                    yield tuple(host), tuple(rc), tuple(target), spec
+
+
 def _sweep(part, built, base_case, hosts, rcs, targets, refs):
     seen = set()
     n = 0
     first = None
-    for host in hosts:
-        for rc in rcs:
-            for target in targets:
-                rel = R.relation(built.model, host, target)
-                for spec in refs:
-                    n += 1
-                    text, fails = eval_ref(built, host, rc, target, spec)
-                    part.count("kind_" + R.spec_kind(spec))
-                    part.count("relation_" + rel)
-                    if text is not None:
-                        if first is None and host != target:
-                            first = (host, rc, target, spec, text)
-                        seen.add((host, tuple(rc), target, text))
-                        part.outcome(text_form(text))
-                    for ident, detail in fails:
-                        part.fail(ident, detail, dict(base_case, host=list(host), rc=list(rc), target=list(target), spec=spec))
+    for host, rc, target, spec in _sweep_order(hosts, rcs, targets, refs):
+        rel = R.relation(built.model, host, target)
+        n += 1
+        text, fails = eval_ref(built, host, rc, target, spec)
+        part.count("kind_" + R.spec_kind(spec))
+        part.count("relation_" + rel)
+        if text is not None:
+            if first is None and host != target:
+                first = (host, rc, target, spec, text)
+            seen.add((host, tuple(rc), target, text))
+            part.outcome(text_form(text))
+        for ident, detail in fails:
+            part.fail(ident, detail, dict(base_case, host=list(host), rc=list(rc), target=list(target), spec=spec, index=n))
     part.count("evaluations", n)
     part.count("distinct_nontrivial", len(seen))
     return n, first
@@ -433,15 +459,11 @@ def work_doc(task):
     hosts = uids if hosts is None else [tuple(h) for h in hosts]
     targets = uids if targets is None else [tuple(t) for t in targets]
     body = R.body_of(scheme)
-    if refset[0] == "full":
-        refs = R.refs_full(tuple(refset[1]), tuple(refset[2]))
-    elif refset[0] == "qual-small":
-        refs = R.refs_qualification_small(body)
-    else:
-        refs = R.refs_qualification(body)
+    refs = _refs_of(refset, scheme)
     if rcs is None:
         rcs = [(body[-1], body[0])]
-    base = {"part": "ref", "names": names, "scheme": scheme, "seed": seed}
+    base = {"part": "ref", "names": names, "scheme": scheme, "seed": seed,
+            "sweep": {"hosts": [list(h) for h in hosts], "rcs": [list(r) for r in rcs], "targets": [list(t) for t in targets], "refset": list(refset)}}
     n, first = _sweep(part, built, base, hosts, rcs, targets, refs)
     part.count(f"cases_{kind}", n)
     part.count("documents_built")
